@@ -139,6 +139,11 @@ class RefEncoder:
             cfg = root_config(own)
         else:
             eff = effective_meta(own, cfg)
+        # a subclass may carry `global_meta`: the settings of a process-wide (module-level) Meta - the defaults of every class
+        # that neither sets them itself nor receives them from the main class
+        for k, gv in (getattr(self, 'global_meta', None) or {}).items():
+            if k in MERGEABLE and gv is not None and k not in eff:
+                eff[k] = gv
         ts = eff.get('marshal_date_time_as') == 'TIMESTAMP'
         # a subclass may carry `key_funcs` (same table shape) that also covers non-canonical field names (C03)
         keyf = getattr(self, 'key_funcs', KEY_FUNCS)[eff.get('key_transform_with_dump') or 'CAMEL']
